@@ -270,7 +270,16 @@ Qed.
 Definition limv (cfg : rcfg) (c : rctx) : Prop :=
   depth c <= max_container_depth cfg /\ (0 < max_array_size_bytes cfg -> arr_total c <= max_array_size_bytes cfg).
 Definition limr (cfg : rcfg) (c : rctx) : Prop := refcount c <= max_local_reference_count cfg.
-Definition ga (cfg : rcfg) (a : args) : Prop := length_ok cfg (blen (a_data a)) = true.
+(* only the whole-array methods check the data length *)
+Definition ga (cfg : rcfg) (m : meth) (a : args) : Prop := is_arr_meth m = true -> length_ok cfg (blen (a_data a)) = true.
+Definition gok (m : meth) (p : prim) : bool :=
+  match p with
+  | PValidateFullArrayAnyType | PValidateFullArrayStringlike | PValidateFullArrayKeyable | PValidateFullArrayStringlikeKeyable => is_arr_meth m
+  | PForwardCurrent m' | PForwardParent m' => negb (is_arr_meth m') || is_arr_meth m
+  | _ => true
+  end.
+Lemma table_gok : table_forall (fun _ m cell => has_reject cell || forallb (gok m) cell) = true.
+Proof. vm_compute. reflexivity. Qed.
 
 Lemma length_ok_0 cfg : length_ok cfg 0 = true.
 Proof. unfold length_ok. lia. Qed.
@@ -295,27 +304,29 @@ Section Sim.
 
   Section Prim.
     Variables call call' : rule -> meth -> args -> rctx -> option rctx.
-    Hypothesis Hc : forall r m a c c', call' r m a c = Some c' -> ga cfg a -> limv cfg c -> limv cfg c' -> limr cfg c' ->
+    Hypothesis Hc : forall r m a c c', call' r m a c = Some c' -> ga cfg m a -> limv cfg c -> limv cfg c' -> limr cfg c' ->
                                        call r m a c = Some c'.
 
     Lemma exec_prim_sim self m a p c c' :
-      exec_prim cfg' call' self m a p c = Some c' -> ga cfg a -> limv cfg c -> limv cfg c' -> limr cfg c' ->
+      exec_prim cfg' call' self m a p c = Some c' -> gok m p = true -> ga cfg m a -> limv cfg c -> limv cfg c' -> limr cfg c' ->
       exec_prim cfg call self m a p c = Some c'.
     Proof.
-      intros E Ga Lc Lc' Lr. destruct Hle as [Ho [Hd [Ha [Hi [Hr Hv]]]]]. unfold limv, limr, ga in *.
-      destruct p; cbn [exec_prim] in E |- *;
+      intros E Gk Ga Lc Lc' Lr. destruct Hle as [Ho [Hd [Ha [Hi [Hr Hv]]]]]. unfold limv, limr, ga in *.
+      destruct p; cbn [exec_prim] in E |- *; cbn [gok] in Gk;
         unfold key_from_array, chunk_data, end_chunk, rule_chunk, try_end_array, end_container, end_container_like,
                begin_container, unstack_rule, local_reference, mark_object, begin_array_any, notify_key in E |- *;
         inv_some; rsimpl;
         repeat match goal with
         | H : _ && _ = true |- _ => apply andb_true_iff in H as [? ?]
         | H : assert_array_type _ _ = true |- _ => rewrite H; clear H
-        | H : validate_full_array_any cfg' _ _ _ = true |- _ => apply validate_any_sim in H; [rewrite H; clear H | assumption]
-        | H : validate_full_array_stringlike cfg' _ _ = true |- _ => apply validate_stringlike_sim in H; [rewrite H; clear H | assumption]
+        | H : validate_full_array_any cfg' _ _ _ = true |- _ => apply validate_any_sim in H; [rewrite H; clear H | exact (Ga Gk)]
+        | H : validate_full_array_stringlike cfg' _ _ = true |- _ => apply validate_stringlike_sim in H; [rewrite H; clear H | exact (Ga Gk)]
         | H : call' ?r0 ?m0 ?a0 ?c1 = Some ?c2 |- _ =>
             let X := fresh "X" in
             assert (call r0 m0 a0 c1 = Some c2) as X
-              by (apply Hc; [exact H | cbn [a_data with_dtype no_args with_key]; first [assumption | apply length_ok_0]
+              by (apply Hc; [exact H
+                            | cbn [a_data with_dtype no_args with_key];
+                              let Z := fresh "Z" in intro Z; first [discriminate Z | apply Ga; rewrite Z in Gk; exact Gk]
                             | rsimpl; lia | assumption | exact Lr]);
             rewrite X; clear X H
         end;
@@ -330,13 +341,14 @@ Section Sim.
   Proof. unfold limv. intros -> ->. auto. Qed.
 
   Lemma exec_prims_sim f :
-    (forall r m a c c', call_rule f cfg' r m a c = Some c' -> ga cfg a -> limv cfg c -> limv cfg c' -> limr cfg c' ->
+    (forall r m a c c', call_rule f cfg' r m a c = Some c' -> ga cfg m a -> limv cfg c -> limv cfg c' -> limr cfg c' ->
                         call_rule f cfg r m a c = Some c') ->
-    forall self m a ps c c', (count_nn ps <= 1)%nat ->
-      exec_prims cfg' (call_rule f cfg') self m a ps c = Some c' -> ga cfg a -> limv cfg c -> limv cfg c' -> limr cfg c' ->
+    forall self m a ps c c', (count_nn ps <= 1)%nat -> forallb (gok m) ps = true ->
+      exec_prims cfg' (call_rule f cfg') self m a ps c = Some c' -> ga cfg m a -> limv cfg c -> limv cfg c' -> limr cfg c' ->
       exec_prims cfg (call_rule f cfg) self m a ps c = Some c'.
   Proof.
-    intros Hc self m a ps; induction ps as [|p ps IH]; intros c c' Hn H Ga Lc Lc' Lr; cbn [exec_prims] in H |- *; [exact H|].
+    intros Hc self m a ps; induction ps as [|p ps IH]; intros c c' Hn Hg H Ga Lc Lc' Lr; cbn [exec_prims] in H |- *; [exact H|].
+    cbn [forallb] in Hg. apply andb_true_iff in Hg as [Gp Gps].
     destruct (exec_prim cfg' (call_rule f cfg') self m a p c) as [c1|] eqn:E; [|discriminate].
     assert (limr cfg c1) as Lr1.
     { unfold limr in *. pose proof (exec_prims_refcount_mono _ _ _ _ _ _ _ _ H). lia. }
@@ -350,18 +362,20 @@ Section Sim.
           destruct (filter (fun p => negb (neutral_p p)) ps); [destruct X | cbn in Hn; lia]. }
         destruct (exec_prims_neutral cfg' _ (call_rule_neutral cfg' f) _ _ _ _ _ _ Nps H) as [E1 E2].
         eapply limv_eq; [symmetry; exact E1 | symmetry; exact E2 | exact Lc']. }
-    rewrite (exec_prim_sim _ _ Hc _ _ _ _ _ _ E Ga Lc Lc1 Lr1). apply IH; auto.
+    rewrite (exec_prim_sim _ _ Hc _ _ _ _ _ _ E Gp Ga Lc Lc1 Lr1). apply IH; auto.
     unfold count_nn in *. cbn [filter] in Hn. destruct (negb (neutral_p p)); cbn [length] in Hn; lia.
   Qed.
 
   Lemma call_rule_sim f : forall r m a c c',
-    call_rule f cfg' r m a c = Some c' -> ga cfg a -> limv cfg c -> limv cfg c' -> limr cfg c' ->
+    call_rule f cfg' r m a c = Some c' -> ga cfg m a -> limv cfg c -> limv cfg c' -> limr cfg c' ->
     call_rule f cfg r m a c = Some c'.
   Proof.
     induction f as [|f IH]; intros r m a c c' H Ga Lc Lc' Lr; cbn [call_rule] in H |- *; [discriminate|].
     pose proof (table_forall_spec _ table_shape r m) as T. cbn beta in T. apply orb_true_iff in T as [T|T].
     - rewrite exec_prims_reject in H by exact T. discriminate.
-    - apply (exec_prims_sim f IH); auto. destruct (neutral_m m); [|apply Nat.leb_le; exact T].
+    - pose proof (table_forall_spec _ table_gok r m) as T2. cbn beta in T2. apply orb_true_iff in T2 as [T2|T2];
+        [rewrite exec_prims_reject in H by exact T2; discriminate|].
+      apply (exec_prims_sim f IH); auto. destruct (neutral_m m); [|apply Nat.leb_le; exact T].
       unfold count_nn. assert (filter (fun p => negb (neutral_p p)) (dispatch r m) = []) as ->; [|cbn; lia].
       clear -T. induction (dispatch r m) as [|p ps IHp]; [reflexivity|]. cbn [forallb filter] in *.
       apply andb_true_iff in T as [T1 T2]. rewrite T1. cbn [negb]. auto.
@@ -370,8 +384,7 @@ Section Sim.
   (* one event *)
   Definition ev_guard (e : event) : Prop :=
     (forall id, event_ident e = Some id -> blen id <= max_identifier_length cfg) /\
-    (forall n, whole_array_bytes e = Some n -> length_ok cfg n = true) /\
-    (forall d, e = EArrayData d -> length_ok cfg (blen d) = true).
+    (forall n, whole_array_bytes e = Some n -> length_ok cfg n = true).
 
   Lemma validate_identifier_sim id :
     validate_identifier cfg' id = true -> blen id <= max_identifier_length cfg -> validate_identifier cfg id = true.
@@ -379,20 +392,20 @@ Section Sim.
     unfold validate_identifier. rewrite !andb_true_iff. intros [[H1 H2] H3] L. repeat split; try assumption. lia.
   Qed.
 
-  Lemma ev_plan_sim e pl : ev_plan cfg' e = Some pl -> ev_guard e -> ev_plan cfg e = Some pl /\ ga cfg (p_args pl).
+  Lemma ev_plan_sim e pl : ev_plan cfg' e = Some pl -> ev_guard e -> ev_plan cfg e = Some pl /\ ga cfg (p_meth pl) (p_args pl).
   Proof.
-    intros H [G1 [G2 G3]]. unfold ga.
+    intros H [G1 G2]. unfold ga.
     destruct e as [| |v| |m t| |b| | |n|n|z|[z|]|bits|[bf|]|[| | |]|[[| | |]|]|s|b|s| | |id|id| | | |id|id|t cnt d|t d|mt d|ct d|ct d|t|mt|t ct|n m|d];
       cbn [ev_plan] in H |- *;
       repeat match goal with H : (if ?b then _ else _) = Some _ |- _ => destruct b eqn:?; try discriminate H end;
-      unfold mkplan in H; inv_some; cbn [p_args a_data with_dtype no_args key_args array_args with_id];
-      try (split; [reflexivity | apply length_ok_0]);
-      try (split; [reflexivity | first [apply G2; reflexivity | apply G3; reflexivity]]);
-      (rewrite validate_identifier_sim; [split; [reflexivity | apply length_ok_0] | assumption | apply G1; reflexivity]).
+      unfold mkplan in H; inv_some; cbn [p_meth p_args a_data with_dtype no_args key_args array_args with_id is_arr_meth];
+      try (split; [reflexivity | intro Z; discriminate Z]);
+      try (split; [reflexivity | intros _; apply G2; reflexivity]);
+      (rewrite validate_identifier_sim; [split; [reflexivity | intro Z; discriminate Z] | assumption | apply G1; reflexivity]).
   Qed.
 
   Lemma plan_step_sim pl c c' :
-    plan_step cfg' pl c = Some c' -> ga cfg (p_args pl) -> objects c' <= max_object_count cfg ->
+    plan_step cfg' pl c = Some c' -> ga cfg (p_meth pl) (p_args pl) -> objects c' <= max_object_count cfg ->
     limv cfg c -> limv cfg c' -> limr cfg c' -> plan_step cfg pl c = Some c'.
   Proof.
     unfold plan_step, call_current. intros H Ga Lo Lc Lc' Lr. destruct (p_nno pl) as [real|].
@@ -510,11 +523,9 @@ Lemma steps_sufficient cfg cfg' es c :
 Proof.
   intros Hle H [Wo [Wd [Wa [Wi Wm]]]] Side.
   apply (steps_sim cfg cfg' Hle es init_rctx c H).
-  - apply Forall_forall. intros e Hin. unfold ev_guard. repeat split.
+  - apply Forall_forall. intros e Hin. unfold ev_guard. split.
     + intros id E. pose proof (ident_usage_in _ _ _ Hin E). lia.
     + intros n E. eapply length_ok_le_n; [eapply whole_array_usage_in; eauto | exact Wa].
-    + intros d ->. destruct Side as [Z|N]; [unfold length_ok; rewrite Z; lia|].
-      unfold no_chunks in N. rewrite forallb_forall in N. specialize (N _ Hin). discriminate.
   - unfold limv. cbn. split; lia.
   - intros p q c1 E _ Hp. subst es. unfold good, limv, limr.
     pose proof (steps_counters _ _ _ _ Hp) as [C1 C2]. cbn in C1, C2.
